@@ -80,7 +80,7 @@ TStep ==
        ELSE /\ Ev.k = "sample" /\ verdict' = "none"
             /\ CASE sub = 0 -> Choose(Ev.fn, ArgsOf(Ev)) /\ sub' = 1 /\ UNCHANGED <<pos, last, anyOut, anyNotNo>>
                  [] sub = 1 -> Call(Md(Ev.mode, FALSE)) /\ sub' = 2 /\ UNCHANGED <<pos, last, anyOut, anyNotNo>>
-                 [] sub = 2 -> /\ OrderOK /\ WarnOK(Ev) /\ ExactOK(Ev) /\ AnchorOK(Ev) /\ ShapeOK(Ev)
+                 [] sub = 2 -> /\ Ev.ok /\ OrderOK /\ WarnOK(Ev) /\ ExactOK(Ev) /\ AnchorOK(Ev) /\ ShapeOK(Ev)
                                /\ Again /\ sub' = 0 /\ pos' = pos + 1
                                /\ last' = [fn |-> fn, T |-> args.T, y |-> Ev.y]
                                /\ anyOut' = (anyOut \/ TOutside(fn, args))
@@ -100,6 +100,7 @@ Clause ==
                               ELSE "count")
       ELSE IF sub = 0 THEN "step:choose"
       ELSE IF sub = 1 THEN "step:call"
+      ELSE IF ~e.ok THEN "unencodable-value"     \* nan, inf, complex, None, too large: equals no expectation
       ELSE IF ~OrderOK THEN "step:order"
       ELSE IF ~WarnOK(e) THEN (IF e.warned THEN "spurious-warning" ELSE "missing-warning")
       ELSE IF ~ExactOK(e) THEN "value"
